@@ -16,7 +16,7 @@ Why(s1, op, s2, e) ==
     IN IF e.res # "empty" \/ e.maxlvl <= 1 THEN "NoErrorOnValidOp"
        ELSE IF dup # {} THEN "MapIsDict-duplicate-key"
        ELSE IF wrong # {} THEN
-            (IF op.op \in {"mutk", "mutj"} THEN "KeyCapturedByValue"
+            (IF op.op \in {"mutk", "mutj", "mutkeys"} THEN "KeyCapturedByValue"
              ELSE IF op.op \in {"newk", "newkj"} \/ (\E m \in wrong : m # op.m) THEN "CopyIndependent"
              ELSE "MapIsDict-content")
        ELSE IF s2.ret # None /\ e.ret # s2.ret THEN "MapIsDict-result"
